@@ -106,6 +106,9 @@ def atom_desc(a: dict) -> dict:
             seq.append(body[0])
         else:
             mf[a["name"]] = body
+    elif k == "cidpart":
+        mf["suit-common"]["suit-components"] = [["M", a["text"], 7], [a["text"]]]
+        mf["suit-manifest-component-id"] = ["I", a["text"]]
     elif k == "unionhex":
         f, t = a["field"], a["text"]
         if f == "content":
@@ -212,7 +215,7 @@ def rnd_cid(rng):
     parts = []
     for _ in range(rng.randint(1, 4)):
         parts.append(rng.choice(["M", "I", "CAND_MFST", "INSTLD_MFST", "x" * 30, rnd_int(rng), -1 - rnd_int(rng) % 2**32, {"raw": "ca" * rng.choice([1, 16, 24])},
-                                 {"RFC4122_UUID": {"namespace": "nordicsemi.com", "name": "n%d" % rng.randrange(5)}}, "ż"]))
+                                 {"RFC4122_UUID": {"namespace": "nordicsemi.com", "name": "n%d" % rng.randrange(5)}}, "ż", "2", "_", "#", "0", " "]))
     return parts
 
 
